@@ -6,6 +6,7 @@ require (
 	github.com/filecoin-project/go-data-transfer/v2 v2.0.0
 	github.com/ipfs/go-cid v0.5.0
 	github.com/ipfs/go-datastore v0.9.0
+	github.com/ipfs/go-graphsync v0.18.0
 	github.com/ipld/go-ipld-prime v0.21.0
 	github.com/libp2p/go-libp2p v0.43.0
 	github.com/multiformats/go-multihash v0.2.3
